@@ -1,0 +1,13 @@
+//go:build verif
+
+package route
+
+// SimYield is the cooperative yield callback installed by a deterministic
+// simulator. It only exists when built with the "verif" build tag.
+var SimYield func(site int)
+
+func simYield(site int) {
+	if SimYield != nil {
+		SimYield(site)
+	}
+}
